@@ -5,6 +5,7 @@ from pyubx2.ubxhelpers import cfgkey2name, cfgname2key
 from pyubx2.ubxtypes_configdb import UBX_CONFIG_DATABASE, UBX_CONFIG_STORSIZE
 
 import gen
+import common
 import impl
 from props.c04 import cfgval, kstr
 
@@ -181,7 +182,7 @@ def run(ctx):
             ctx.fail("undocumented-id-resolved-to-a-documented-key", {"op": "CFGKEY2NAME", "id": hex(k2)}, want, got)
     for lay, tr, pos, items in cases:
         ok_items = all(good_item(k, v) for k, v in items)
-        inp = {"op": "CFGSET", "layers": lay, "transaction": tr, "n": len(items), "items": repr(items)[:300]}
+        inp = {"op": "CFGSET", "layers": lay, "transaction": tr, "n": len(items), "items": common.srepr(items, 300)}
         try:
             with impl.quiet():
                 m = UBXMessage.config_set(lay, tr, items)
